@@ -257,6 +257,53 @@ func run(r *mon.Run) {
 			bad("HEADER-INTEGRITY-DIFFERS", fmt.Sprintf("ComputeHeaderIntegrity=%q (%v), reference %q", hi, herr, rsxg.HeaderIntegrity(ref)), nil)
 			continue
 		}
+		// 6b. read -> edit through the public fields -> sign again -> write: the bytes written must be the reference
+		// layout of the EDITED exchange (nothing of the parsed representation may survive the edit)
+		if fits && i%4 == 1 && len(wantF) < 200000 {
+			back, rerr := signedexchange.ReadExchange(bytes.NewReader(fb.Bytes()))
+			if rerr != nil {
+				bad("REREAD-FAILED", "ReadExchange rejects what Write produced: "+rerr.Error(), nil)
+				continue
+			}
+			back.ResponseHeaders["X-Edited-After-Parsing"] = []string{"yes"}
+			newStatus := 203
+			if back.ResponseStatus == 203 {
+				newStatus = 200
+			}
+			back.ResponseStatus = newStatus
+			back.SignatureHeaderValue = ""
+			if aerr := back.AddSignatureHeader(signer); aerr != nil {
+				bad("RESIGN-FAILED", "AddSignatureHeader on a parsed and edited exchange failed: "+aerr.Error(), nil)
+				continue
+			}
+			ref3 := *ref
+			ref3.Status = newStatus
+			ref3.RespHeaders = map[string]string{}
+			for k, v := range ref.RespHeaders {
+				ref3.RespHeaders[k] = v
+			}
+			ref3.RespHeaders["x-edited-after-parsing"] = "yes"
+			if ver == version.Version1b3 {
+				ref3.Method = "GET"
+			}
+			var hb3, fb3 bytes.Buffer
+			herr3 := back.DumpExchangeHeaders(&hb3)
+			werr3 := back.Write(&fb3)
+			hi3, hierr3 := back.ComputeHeaderIntegrity()
+			wantF3, ok3 := rsxg.File(&ref3, back.SignatureHeaderValue)
+			switch {
+			case herr3 != nil || !bytes.Equal(hb3.Bytes(), rsxg.HeaderCBOR(&ref3)):
+				bad("EDITED-HEADERS-DIFFER", fmt.Sprintf("after ReadExchange + edit + AddSignatureHeader, DumpExchangeHeaders is not the canonical CBOR of the edited exchange (err=%v)", herr3), nil)
+				continue
+			case ok3 && (werr3 != nil || !bytes.Equal(fb3.Bytes(), wantF3)):
+				bad("EDITED-FILE-DIFFERS", fmt.Sprintf("after ReadExchange + edit + AddSignatureHeader, Write does not emit the layout of the edited exchange (err=%v, first difference at byte %d)", werr3, firstDiff(fb3.Bytes(), wantF3)), nil)
+				continue
+			case hierr3 != nil || hi3 != rsxg.HeaderIntegrity(&ref3):
+				bad("EDITED-HEADER-INTEGRITY-DIFFERS", "after ReadExchange + edit, ComputeHeaderIntegrity is not the SHA-256 of the edited header bytes", nil)
+				continue
+			}
+			r.Eval("edited-after-parsing-conforms")
+		}
 		if fits && len(wantF) < 20000 && len(kept) < 96 {
 			kept = append(kept, written{e, wantF, desc})
 		}
